@@ -157,12 +157,12 @@ def replay_tsan(rn, ob, path, sched):
     rc, so, se, w, _ = run(cmd, timeout=600)
     if rc != 0: raise BuildError('TSan build failed:\n%s' % se[-2000:])
     env = dict(os.environ); env['TSAN_OPTIONS'] = 'halt_on_error=0 report_signal_unsafe=0'
-    for i in range(30):
+    for i in range(60):
         rc, so, se, w, _ = run([out], timeout=30, env=env)
         if 'ThreadSanitizer: data race' in se or 'ThreadSanitizer: data race' in so:
             m = re.search(r'WARNING: ThreadSanitizer: data race[^\n]*\n(?:.*\n){0,6}', se + so)
             return dict(outcome='confirmed', how='ThreadSanitizer on the real code (run %d): %s' % (i + 1, (m.group(0) if m else 'data race')[:400].replace('\n', ' | ')), rc=rc)
-    return dict(outcome='unconfirmed', how='ThreadSanitizer reports no data race in 30 free runs of the real code', rc=rc)
+    return dict(outcome='unconfirmed', how='ThreadSanitizer reports no data race in 60 free runs of the real code', rc=rc)
 
 
 def replay(rn, ob, sched, path):
